@@ -12,7 +12,7 @@ META = dict(
               "on-disk working tree and the recorded result (new revision tree, iter_changes, working tree, tip, revision "
               "set) is judged by the TLA+ laws; commits re-run with every state-changing repository/branch transport "
               "operation, message_callback and hooks failing",
-    level_text="Small scope: all edit sequences of length <= 1 and a seeded sample of those of length 2 (quick 1/36, thorough 1/2; "
+    level_text="Small scope: all edit sequences of length <= 1 and a seeded sample of those of length 2 (quick 1/48, thorough 1/2; "
                "thorough also 1/300 of length 3) over add / remove / rename / modify / chmod / delete-on-disk / kind change on a 5-id "
                "namespace with nested directories, each combined with every distinct selection reachable by <= 2 specific files "
                "and <= 1 (2) excludes. TLC checks ValidTree, the per-id substitution rule and that refused / failed commits are "
@@ -527,6 +527,12 @@ def signature(law, row, S):
     return "law:%s:%s" % (law, shape(row))
 
 
+def confusable(p, paths):
+    """p is a plain string prefix of another existing path that does not lie inside p."""
+    ps = "/".join(p)
+    return any(q != p and "/".join(q).startswith(ps) and q[:len(p)] != p for q in paths)
+
+
 def run(ctx):
     env.init()
     q = ctx.quick
@@ -540,7 +546,7 @@ def run(ctx):
         tlc.check(ctx, "CommitModelMC", cfg_text=mc_cfg("B0", 2, 1, 2, 1, False, MC_INV), label="MC B0: 2 edits, 1 commit", workers=16, timeout=3000)
         tlc.check(ctx, "CommitModelMC", cfg_text=mc_cfg("B1", 2, 1, 1, 1, False, MC_INV), label="MC B1: 2 edits, 1 commit", workers=16, timeout=3000)
     # ---- E1/E2: case generation (every state = one TLC initial state, laws checked on the spec's own outcome)
-    plans = [("B0", 2, 2, 1, 36 if q else 2), ("B1", 1 if q else 2, 2, 1, 3 if q else 6)]
+    plans = [("B0", 2, 2, 1, 48 if q else 2), ("B1", 1 if q else 2, 2, 1, 1 if q else 6)]
     if not q:
         plans.append(("B0", 3, 1, 1, 300))
         plans.append(("B0", 1, 2, 2, 1))
@@ -581,7 +587,13 @@ def run(ctx):
         for k in sorted(st["classes"], key=lambda k: sorted(k["S"])):
             cs = sorted(k["combos"], key=lambda x: (len(x["sel"]) + len(x["excl"]), str(x)))
             picks = cs[:per_class]
-            if len(cs) > 1 and nstate % 3 == 0:          # every third state: also a random other choice of each class
+            # containment, not string prefix: when a path is a plain string prefix of another path without containing it
+            # ("d" / "d2"), also replay the smallest choices of this class that exclude / select such a path
+            for key in ("excl", "sel"):
+                x = next((x for x in cs if any(confusable(p, st["paths"]) for p in x[key])), None)
+                if x is not None and x not in picks:
+                    picks.append(x)
+            if len(cs) > 1 and nstate % 3 == 0 and not q:    # thorough, every third state: also a random other choice of each class
                 picks.append(ctx.rng.choice(cs[1:]))
             combos.extend(picks)
         if nstate % (12 if q else 4) == 0 and st["h"]:
@@ -637,10 +649,10 @@ def run(ctx):
                 o.get("detail"), "refused / failed" if o["outcome"] == "ok" else "ok", shape(row)), row)
     ctx.cov["exhaustive"] = False      # the deepest level of edit sequences is sampled (seeded)
     ctx.rule("states = every edit sequence of length <= 2 over {add, remove, rename, modify, chmod, delete-on-disk, kind change} from "
-             "basis B0 (a, d/, d/b) and B1 (a*, c/, c/d/, c/d/b@) enumerated by TLC (quick: length-2 sequences sampled 1/36; thorough: 1/2 "
+             "basis B0 (a, d/, d/b) and B1 (a*, c/, c/d/, c/d/b@) enumerated by TLC (quick: length-2 sequences sampled 1/48; thorough: 1/2 "
              "(B1: 1/6), plus 1/300 of the length-3 sequences); per state every distinct selected-id set reachable with <= 2 "
-             "specific files and <= 1 exclude (2 for single edits), replayed with the smallest path choice that produces it (every third state: "
-             "a second, random one), every third state followed by a commit of everything left; thorough: every sixth state also on pack-0.92; plus merge / conflict refusals; fault half: every mutating repository/branch transport "
+             "specific files and <= 1 exclude (2 for single edits), replayed with the smallest path choice that produces it (plus the smallest choices that exclude / select a path which "
+             "is a plain string prefix of a sibling path; thorough, every third state: a second, random one), every third state followed by a commit of everything left; thorough: every sixth state also on pack-0.92; plus merge / conflict refusals; fault half: every mutating repository/branch transport "
              "operation of sampled commits fails once, plus message_callback, tree read, pre_commit and post_commit hooks raising; "
              "non-trivial = at least one edit and a partial selection, or an injected fault")
     ctx.assume("an injected fault is an exception raised instead of the operation; the process survives (crash atomicity is C04)")
